@@ -5,6 +5,9 @@
 //! and every class is read by the independent strict parser. The oracle (c13/oracle.rs) derives everything it
 //! expects from the two input jars.
 //!
+//! The jars are handed to `merge` as `UnnamedMemJar` (zip archive in memory, what the binary does) and — in the
+//! entry and content spaces — also as `ParsedJar` holding the same entries; each result is judged on its own.
+//!
 //! Enumerated spaces (each complete):
 //!  1. member order: ALL pairs (client list, server list) of duplicate-free sequences over a k-symbol alphabet,
 //!     length ≤ k, for fields, methods, interfaces and all three at once — one class, one merge per pair;
